@@ -55,11 +55,24 @@ namespace {
     struct ThrInfo {
         bool has_rec = false;       // the thread owns a publication record of the kernel
         bool published = false;     // its record was inserted into the publication list at least once
-        bool exited = false;
+        bool exited = false;        // TLS cleanup (kernel::tls_cleanup + exit mark) has run
         uint64_t exit_stamp = 0;
     };
 
-    enum { EV_PUB = 1, EV_EXEC, EV_RET, EV_EXIT, EV_COMPACT, EV_FREE, EV_DEACT, EV_ACT, EV_EXCL, EV_P2C };
+    enum { EV_PUB = 1, EV_EXEC, EV_RET, EV_EXIT, EV_COMPACT, EV_FREE, EV_DEACT, EV_ACT, EV_EXCL, EV_P2C, EV_LOCK, EV_UNLOCK, EV_PASSES, EV_NEWREC, EV_ZOMBIE };
+    const char* const kEvNames[] = { "?", "publish-request", "execute", "combine-returned", "tls-cleanup(thread exit)", "compact_list-done", "free-record",
+        "deactivate-record", "activate-record(list insert)", "exclusive-body", "passive-to-combiner", "lock", "unlock", "combining-passes-done", "create-record", "FREED-WHILE-STILL-LINKED" };
+
+    // FCK_TRACE=1: print the event history to stderr while the case runs (for --replay)
+    bool trace_on()
+    {
+        static int on = -1;
+        if ( on < 0 ) {
+            const char* e = getenv( "FCK_TRACE" );
+            on = ( e && *e && *e != '0' ) ? 1 : 0;
+        }
+        return on == 1;
+    }
 
     struct CaseState {
         std::deque<ReqInfo> req;
@@ -79,14 +92,19 @@ namespace {
         uint64_t combine_multi = 0, holds = 0, batch_served = 0, apply_served = 0, fc_process_calls = 0;
         uint64_t exit_locked = 0, republish_locked = 0;
         uint64_t change_in_compacting_hold = 0, change_in_compaction_window = 0;
-        uint64_t freed_by_compaction = 0;
+        uint64_t freed_by_compaction = 0, freed_while_linked = 0;
         bool in_dtor = false;
         uint64_t last_pub = 0;
         std::vector<uint32_t> log;
+        // threads created by worker bodies. They are joined by the main thread after the schedule
+        // has drained (see run_fc); a body "joins" a child by waiting for its exit flag.
+        std::deque<std::thread> kids;
 
         void ev( int kind, int tid, int x )
         {
             log.push_back(( uint32_t( kind ) << 24 ) ^ ( uint32_t( tid & 0xff ) << 16 ) ^ uint32_t( x & 0xffff ));
+            if ( trace_on())
+                fprintf( stderr, "[fck] pt=%-5llu thread %d: %s %d\n", (unsigned long long) cdsverif::points_now(), tid, kEvNames[kind], x );
         }
         int new_thread()
         {
@@ -125,6 +143,7 @@ namespace {
             s->compact_in_hold = 0;
             s->pend_hold = s->pend_window = 0;
             ++s->holds;
+            s->ev( EV_LOCK, t_tid, 0 );
         }
         void released()
         {
@@ -140,6 +159,7 @@ namespace {
                 s->change_in_compaction_window += s->pend_window;
             }
             s->lock_holder = -1;
+            s->ev( EV_UNLOCK, t_tid, 0 );
         }
         void lock()
         {
@@ -160,13 +180,18 @@ namespace {
         }
     };
 
+    void check_walk_over_freed();   // defined behind the tracking allocator
+
     // ---- statistics policy with plain counters (no extra scheduling points) + event hooks -----
     struct HookStat {
         void onOperation() {}
         void onCombining()
         {
-            if ( g_cs )
+            if ( g_cs ) {
                 g_cs->after_passes = true;
+                g_cs->ev( EV_PASSES, t_tid, 0 );
+                check_walk_over_freed();
+            }
         }
         void onCompactPublicationList()
         {
@@ -199,8 +224,10 @@ namespace {
         }
         void onCreatePubRecord()
         {
-            if ( g_cs )
+            if ( g_cs ) {
                 ++g_cs->created;
+                g_cs->ev( EV_NEWREC, t_tid, 0 );
+            }
         }
         void onDeletePubRecord()
         {
@@ -231,12 +258,26 @@ namespace {
 
     // ---- tracking allocator for publication records -----------------------------------------------
     struct AllocTrack {
-        std::map<void*, int> state;     // 1 live, 0 freed (address may be re-used later: set to 1 again)
+        std::map<void*, int> state;     // 1 live, 0 freed (address may be re-used later: set to 1 again), 2 zombie
         size_t live = 0, allocs = 0, frees = 0;
+        // Records that the kernel deleted during compaction although they were still linked in the
+        // publication list. Their memory is retained until the end of the case (instead of letting
+        // ASan abort at the next list walk) so that the case ends with a diagnosed verdict: the
+        // failure is raised when a combining pass has actually walked over such a record.
+        std::vector<void*> zombies;
+        std::function<bool( void* )> linked;    // is the record reachable from the publication list head?
         void reset()
         {
+            release_zombies();
             state.clear();
+            linked = nullptr;
             live = allocs = frees = 0;
+        }
+        void release_zombies()
+        {
+            for ( void* z : zombies )
+                ::operator delete( z );
+            zombies.clear();
         }
     };
     AllocTrack g_alloc;
@@ -271,9 +312,16 @@ namespace {
                 fail( "publication record deleted twice" );
                 return;     // do not free again: let the case finish and report
             }
-            it->second = 0;
             --g_alloc.live;
             ++g_alloc.frees;
+            if ( g_cs && !g_cs->in_dtor && g_alloc.linked && g_alloc.linked( static_cast<void*>( p ))) {
+                it->second = 2;
+                g_alloc.zombies.push_back( static_cast<void*>( p ));
+                ++g_cs->freed_while_linked;
+                g_cs->ev( EV_ZOMBIE, t_tid, 0 );
+                return;
+            }
+            it->second = 0;
             ::operator delete( static_cast<void*>( p ));     // really freed: ASan reports any later access
         }
         template <typename U>
@@ -287,6 +335,20 @@ namespace {
             return false;
         }
     };
+
+    // called when a combiner has finished its passes over the publication list: every record linked
+    // in the list has been dereferenced by combining_pass()
+    void check_walk_over_freed()
+    {
+        if ( !g_alloc.linked )
+            return;
+        for ( void* z : g_alloc.zombies )
+            if ( g_alloc.linked( z )) {
+                fail( "use after free: a combining pass walked over a publication record that compact_list() had already deleted "
+                      "(the record of an exited thread was freed while still linked in the publication list)" );
+                return;
+            }
+    }
 
     // ---- exit marker: its cleanup runs in the same boost TLS destructor loop as kernel::tls_cleanup
     struct ExitMark {
@@ -304,7 +366,12 @@ namespace {
         }
         delete m;
     }
-    boost::thread_specific_ptr<ExitMark> g_exit_mark( exit_mark_cleanup );
+    // The thread_specific_ptr itself lives in the per-case heap object *behind* the kernel (see
+    // CaseObj): boost runs the TLS cleanups of an exiting thread in ascending address order of the
+    // thread_specific_ptr objects, so this cleanup runs right after kernel::tls_cleanup of the same
+    // thread, with no scheduling point in between.
+    typedef boost::thread_specific_ptr<ExitMark> exit_mark_ptr;
+    exit_mark_ptr* g_exit_mark = nullptr;
 
     // ---- the FC "container" ----------------------------------------------------------------------------
     struct ReqRec : fc::publication_record {
@@ -320,10 +387,26 @@ namespace {
 
     template <typename Traits>
     struct FcBox {
-        typedef fc::kernel<ReqRec, Traits> kernel_t;
+        struct kernel_t : fc::kernel<ReqRec, Traits> {
+            kernel_t( unsigned f, unsigned n )
+                : fc::kernel<ReqRec, Traits>( f, n )
+            {}
+            fc::publication_record* head() { return this->m_pHead; }
+        };
         typedef typename kernel_t::publication_record_type rec_t;
         kernel_t k;
         CaseState& cs;
+
+        // is the record reachable from the head of the publication list? (oracle only: no scheduling points)
+        bool linked( void* rec )
+        {
+            cdsverif::no_sched ns;
+            int n = 0;
+            for ( fc::publication_record* q = k.head(); q && n < 100000; q = q->pNext.load( std::memory_order_relaxed ), ++n )
+                if ( static_cast<void*>( static_cast<rec_t*>( q )) == rec )
+                    return true;
+            return false;
+        }
 
         FcBox( unsigned cf, unsigned passes, CaseState& s )
             : k( cf, passes )
@@ -443,16 +526,21 @@ namespace {
     void thread_prologue( int tid )
     {
         t_tid = tid;
-        g_exit_mark.reset( new ExitMark{ tid } );
+        g_exit_mark->reset( new ExitMark{ tid } );
     }
 
-    // ops: 0 req(a: op code)  1 breq(a)  2 excl  3 spawn(a: requests-1, b: bit0 batch, bit1 join at once)  4 join
+    // ops: 0 req(a: op code)  1 breq(a)  2 excl  3 spawn(a: requests-1, b: bit0 batch, bit1 wait for its exit at once)
+    //      4 join (wait for the exit of the oldest child not yet waited for)
     template <typename Box>
     void run_program( Box& box, CaseState& cs, int tid, std::vector<Op> const& ops )
     {
         thread_prologue( tid );
-        std::vector<std::thread> kids;
+        std::vector<int> kids;      // logical ids of my children
         size_t next_join = 0;
+        auto join_one = [&]() {
+            int ctid = kids[next_join++];
+            cdsverif::wait_until( [&cs, ctid]() { return cs.thr[size_t( ctid )].exited; } );
+        };
         for ( Op const& op : ops ) {
             switch ( op.code ) {
             case 0:
@@ -468,28 +556,27 @@ namespace {
                 int ctid = cs.new_thread();
                 int n = ( op.a % 3 ) + 1;
                 bool batch = ( op.b & 1 ) != 0;
-                kids.emplace_back( [&box, ctid, n, batch]() {
+                kids.push_back( ctid );
+                cs.kids.emplace_back( [&box, ctid, n, batch]() {
                     thread_prologue( ctid );
                     for ( int i = 0; i < n; ++i )
                         box.request( unsigned( i & 1 ), batch );
                 } );
-                if ( op.b & 2 ) {
-                    // join at once (children are joined in order; earlier ones first)
-                    for ( ; next_join < kids.size(); ++next_join )
-                        kids[next_join].join();
-                }
+                if ( op.b & 2 )
+                    while ( next_join < kids.size())
+                        join_one();
                 break;
             }
             case 4:
                 if ( next_join < kids.size())
-                    kids[next_join++].join();
+                    join_one();
                 break;
             default:
                 break;
             }
         }
-        for ( ; next_join < kids.size(); ++next_join )
-            kids[next_join].join();
+        while ( next_join < kids.size())
+            join_one();
     }
 
     template <typename Traits>
@@ -515,13 +602,36 @@ namespace {
         session_begin( p );
         {
             typedef FcBox<Traits> Box;
-            Box box( cf < 1 ? 1 : cf, passes < 1 ? 1 : passes, cs );
+            struct CaseObj {
+                Box box;
+                exit_mark_ptr mark;     // behind the kernel: its cleanup runs after kernel::tls_cleanup
+                CaseObj( unsigned f, unsigned n, CaseState& s )
+                    : box( f, n, s )
+                    , mark( exit_mark_cleanup )
+                {}
+            };
+            std::unique_ptr<CaseObj> obj( new CaseObj( cf < 1 ? 1 : cf, passes < 1 ? 1 : passes, cs ));
+            Box& box = obj->box;
+            g_exit_mark = &obj->mark;
+            g_alloc.linked = [&box]( void* r ) { return box.linked( r ); };
             if ( main_ops )
                 box.request( 0, false );    // the head record (created by the constructor for this thread) becomes active
             std::vector<std::function<void()>> bodies;
             for ( size_t t = 0; t < c.prog.size(); ++t )
                 bodies.push_back( [&box, &cs, &c, t]() { run_program( box, cs, int( t ) + 1, c.prog[t] ); } );
-            run_threads( bodies );      // returns after every worker (and so every child) has really exited
+            run_threads( bodies );      // returns after every worker has really exited
+            // Children have run their TLS cleanup (their parents waited for it) but may not have left the
+            // scheduler yet: let them finish, then join them. (They are not joined by their parents:
+            // pthread_t values are recycled after a join and the runtime looks threads up by handle.)
+            for ( ;; ) {
+                uint64_t y = session_stats().yields;
+                cdsverif::yield_point();
+                if ( session_stats().yields == y )
+                    break;
+            }
+            for ( std::thread& th : cs.kids )
+                th.join();
+            cs.kids.clear();
 
             if ( cs.lock_holder != -1 || cs.inside != 0 )
                 fail( "global lock still held after all threads finished" );
@@ -541,9 +651,15 @@ namespace {
                 box.request( 1, false );
                 box.request( 0, true );
                 quiescent_unreclaimed = g_alloc.live - 1;
+                if ( quiescent_unreclaimed && getenv( "FCK_STRICT" ))
+                    fail( "exploration only: a quiescent compaction left records of exited threads" );
             }
             cs.in_dtor = true;
+            g_alloc.linked = nullptr;
+            obj.reset();
+            g_exit_mark = nullptr;
         }
+        g_alloc.release_zombies();
         if ( g_alloc.live != 0 )
             fail( std::to_string( g_alloc.live ) + " publication record(s) not deleted by ~kernel" );
         if ( g_alloc.allocs != cs.created || g_alloc.frees != cs.deleted )
@@ -567,6 +683,8 @@ namespace {
         note_class( "rec_deactivated", cs.deactivated );
         note_class( "rec_republished", cs.republished );
         note_class( "rec_freed_by_compaction", cs.freed_by_compaction );
+        if ( cs.freed_while_linked )
+            note_class( "freed_while_linked", cs.freed_while_linked );
         note_class( "exit_midcase", exit_mid );
         note_class( "exit_while_combining", cs.exit_locked );
         note_class( "republish_while_combining", cs.republish_locked );
